@@ -355,3 +355,207 @@ def run_signature_rows(chk, A):
                    detail="row `%s` stores the operand shapes %s; the database's forms of the mnemonic are: %s" % (names[rid], shp, "; ".join(seen) or "(none)"),
                    key="sigrow|%s" % names[rid])
     chk.floor(R + ":rows", n, 25)
+
+
+# ---------------------------------------------------------------------------------------------------------------------------
+def fp_accept_sets(chk, A):
+    """hf index -> (scalar arrangements, vector arrangements) accepted by pick_fp_opcode, folded from its two reject conditions"""
+    ft = chk.facts("asmjit/arm/a64assembler.cpp", records=r"asmjit::a64::EncodeFpOpcodeBits$", enums=r"asmjit::RegType$|asmjit::a64::VecElementType$")
+    rec = ft["records"].get("asmjit::a64::EncodeFpOpcodeBits")
+    chk.need(rec is not None, "struct EncodeFpOpcodeBits not found")
+    fidx = {f["name"]: k for k, f in enumerate(rec["fields"])}
+    chk.need("size_mask" in fidx, "EncodeFpOpcodeBits::size_mask not found")
+    rt = {n: v for n, v in ft["enums"]["asmjit::RegType"]["enumerators"]}
+    et = {n: v for n, v in ft["enums"]["asmjit::a64::VecElementType"]["enumerators"] if n != "kMaxValue"}
+    g = [h for k, h in A["helpers"].items() if k.startswith("asmjit::a64::pick_fp_opcode/7")]
+    chk.need(len(g) == 1, "pick_fp_opcode(reg, s_op, s_hf, v_op, v_hf, opcode, sz_out) not found")
+    g = g[0]
+    pn = [p["name"] for p in g.params]
+    tab = None
+    inits = {}
+    for i, x in g.ex.items():
+        if x["k"] == "decl":
+            for v in x["vars"]:
+                if v.get("static") and v.get("init") and "EncodeFpOpcodeBits" in v["ty"]:
+                    tab = (v["name"], [[(g.e(c) or {}) for c in (g.e(r) or {}).get("ch", [])] for r in g.e(v["init"])["ch"]])
+                elif v.get("init"):
+                    inits.setdefault(v["name"], []).append((i, v["did"], v["init"]))
+    chk.need(tab is not None, "pick_fp_opcode: static EncodeFpOpcodeBits table not found")
+    masks = [r[fidx["size_mask"]].get("cv") for r in tab[1]]
+    chk.need(all(isinstance(m, int) for m in masks), "pick_fp_opcode: size_mask column is not constant")
+    # the two reject conditions: terminators whose true edge leads to `return false`
+    falses = {b for b, idx, r in g.return_sites() if (g.e(g.strip(g.e(r).get("val"))) or {}).get("cv") == 0 and g.e(g.strip(g.e(r).get("val")))["k"] in ("bool", "int")}
+    conds = {}
+    for b in g.blocks.values():
+        t = b.get("term")
+        if t and t.get("cond") and len(b["succs"]) == 2 and b["succs"][0] in falses:
+            # every block of an `a || b || c` chain branches to the same exit; the last one carries the whole expression
+            if b["succs"][0] not in conds or len(g.text(t["cond"])) > len(g.text(conds[b["succs"][0]])):
+                conds[b["succs"][0]] = t["cond"]
+    chk.need(len(conds) == 2, "pick_fp_opcode: expected one reject condition in the scalar and one in the vector branch (found %d)" % len(conds))
+    # which is which: the vector branch defines a local from element_type()
+    branch = {}
+    for fb, c in conds.items():
+        names = {(g.e(j) or {}).get("name") for j in g.walk(c) if (g.e(j) or {}).get("k") == "ref"}
+        uses_elem = False
+        for nm in names:
+            cands = [d for d in inits.get(nm, []) if g.line_of(d[0]) <= g.line_of(c)]
+            if cands and "element_type" in g.text(max(cands, key=lambda d: g.line_of(d[0]))[2]):
+                uses_elem = True
+        branch["vector" if uses_elem else "scalar"] = c
+    chk.need(set(branch) == {"scalar", "vector"}, "pick_fp_opcode: scalar / vector reject conditions not told apart")
+
+    def rejected(cond, rv, ev, hf, hfparam):
+        def leaf(txt, node):
+            if isinstance(node.get("cv"), int):
+                return node["cv"]
+            if txt.endswith(".reg_type()"):
+                return rv
+            if txt.endswith(".element_type()"):
+                return ev
+            if node.get("k") == "ref" and node.get("dk") == "local" and node.get("name") in inits:
+                # the definition closest above the condition
+                cands = [d for d in inits[node["name"]] if g.line_of(d[0]) <= g.line_of(cond)]
+                if cands:
+                    return F.fold(g, max(cands, key=lambda d: g.line_of(d[0]))[2])
+            m = re.match(r"%s\[(%s|%s)\]\.size_mask$" % (re.escape(tab[0]), re.escape(pn[2]), re.escape(pn[4])), txt)
+            if m:
+                return masks[hf]
+            raise exprfold.Unknown()
+        F = _F({}, leaf, 64)
+        F_bt = F.fold
+
+        def fold(fn, eid, depth=0):
+            x = fn.e(eid)
+            if x is not None and x["k"] == "call" and x.get("cn") == "bit_test" and len(x.get("args", [])) == 2:
+                return (fold(fn, x["args"][0], depth + 1) >> fold(fn, x["args"][1], depth + 1)) & 1
+            return F_bt(fn, eid, depth)
+        F.fold = fold
+        return bool(F.fold(g, cond))
+    out = {}
+    grid = 0
+    for hf in range(len(masks)):
+        sc, ve = set(), set()
+        for rn, scn in SCALAR:
+            try:
+                grid += 1
+                if not rejected(branch["scalar"], rt[rn], 0, hf, pn[2]):
+                    sc.add(scn)
+                for en, ev in et.items():
+                    if en == "kNone":
+                        continue
+                    grid += 1
+                    if not rejected(branch["vector"], rt[rn], ev, hf, pn[4]):
+                        ve.add(LANES.get((rn, en), "%s.%s" % (rn[1:], en[1:])))
+            except exprfold.Unknown:
+                chk.need(False, "pick_fp_opcode: a reject condition is not foldable")
+        out[hf] = (sc, ve)
+    return out, grid
+
+
+def run_fp(chk, A):
+    from . import a64db, subscript
+    R = "R-FP-FORMS-DB-AGREE"
+    chk.rule(R, "for every FP instruction row whose case calls pick_fp_opcode(operand K, scalar op, scalar hf, vector op, vector hf): the scalar "
+                "and vector shapes that call accepts - pick_fp_opcode's two reject conditions folded over all register types, element types and "
+                "half-float classes, the row's op/hf values folded through the EncodingData accessors - are listed for operand K of the mnemonic's "
+                "forms in db/isa_aarch64.json")
+    emit, regions, dbf = A["emit"], A["regions"], A["db"]
+    acc, grid = fp_accept_sets(chk, A)
+    chk.floor(R + ":grid", grid, 100)
+    db = a64db.load_db(chk)
+    T = dbf["tables"]
+    rows = T["asmjit::a64::InstDB::_inst_info_table"]["value"]
+    f2 = chk.facts("asmjit/arm/a64instdb.cpp", tables=r"asmjit::a64::InstDB::(_inst_name_string_table|_inst_name_index_table)$")
+    strtab = f2["tables"]["asmjit::a64::InstDB::_inst_name_string_table"]["value"]
+    names = [nametables.decode(v, strtab) for v in f2["tables"]["asmjit::a64::InstDB::_inst_name_index_table"]["value"]]
+    enc_name = {v: n for n, v in dbf["enums"]["asmjit::a64::InstDB::EncodingId"]["enumerators"]}
+    fa = chk.facts("asmjit/arm/a64assembler.cpp", funcs=subscript.ACCESSORS)
+    accf = {}
+    from . import cfg as _cfg
+    for fo in fa["functions"]:
+        h = _cfg.Fn(fo)
+        accf.setdefault(h.name, h)
+    case_arrays = {}
+    for i, x in emit.ex.items():
+        if x["k"] == "subscript":
+            idx = emit.e(emit.strip(x["idx"]))
+            base = emit.e(emit.strip(x["base"]))
+            if idx and idx["k"] == "ref" and idx.get("name") == "encoding_index" and base and base["k"] == "ref" and base.get("dk") == "global":
+                for reg in regions.group_of_line(x["l"]):
+                    case_arrays.setdefault(reg, set()).add(base["qn"])
+    by_name = collections.defaultdict(list)
+    for e in db:
+        if not a64db.is_sve(e):
+            by_name[e["name"]].append(e)
+
+    def fold_arg(e, row):
+        x = emit.e(emit.strip(e))
+        if x is not None and isinstance(x.get("cv"), int):
+            return x["cv"]
+        if x is not None and x["k"] == "mcall" and not x.get("args"):
+            h = accf.get(x.get("callee"))
+            if h is not None:
+                def leaf(t, node):
+                    if node.get("k") == "member" and node.get("field") in row and isinstance(row[node["field"]], int):
+                        return row[node["field"]]
+                    if isinstance(node.get("cv"), int):
+                        return node["cv"]
+                    raise exprfold.Unknown()
+                F = exprfold.Folder(accf, leaf, 32)
+                return F.fold(h, F.ret_of(h))
+        if x is not None and x["k"] == "member" and x.get("field") in row:
+            return row[x["field"]]
+        raise exprfold.Unknown()
+    n_rows = n_sites = 0
+    for i, x in sorted(emit.calls(lambda x: x.get("cn") == "pick_fp_opcode" and len(x.get("args", [])) >= 6)):
+        opn = re.sub(r"\s+", "", emit.text(x["args"][0])).split(".")[0]
+        k = {"o0": 0, "o1": 1, "o2": 2}.get(opn)
+        regs = [r for r in regions.group_of_line(x["l"]) if r.startswith("case:")]
+        arrays = set()
+        for r in regs:
+            arrays |= case_arrays.get(r, set())
+        if k is None or len(arrays) != 1:
+            chk.ob(R, "site@%d" % emit.line_of(i), False, loc=emit.loc(i), detail="pick_fp_opcode call whose operand / EncodingData table is not recognised")
+            continue
+        n_sites += 1
+        element_form = "element" in emit.text(x["args"][1])
+        data_rows = T[next(iter(arrays))]["value"]
+        for rid in range(1, len(rows)):
+            en = enc_name.get(rows[rid]["_encoding"])
+            if "case:%s" % en not in regs or rows[rid]["_encoding_data_index"] >= len(data_rows):
+                continue
+            row = data_rows[rows[rid]["_encoding_data_index"]]
+            try:
+                s_op, s_hf, v_op, v_hf = (fold_arg(x["args"][j], row) for j in (1, 2, 3, 4))
+            except exprfold.Unknown:
+                chk.ob(R, "%s|%s|evaluable" % (names[rid], en[9:]), False, loc=emit.loc(i), detail="the op/hf arguments of pick_fp_opcode are not foldable for this row")
+                continue
+            E = set()
+            if s_op and s_hf in acc:
+                E |= acc[s_hf][0]
+            if v_op and v_hf in acc:
+                E |= acc[v_hf][1]
+            E = {{"1D": "1D"}.get(a, a) for a in E}
+            D = set()
+            nforms = 0
+            for e in by_name.get(names[rid], []):
+                has_idx = any("[#" in o["s"] for o in e["ops"])
+                if has_idx != element_form:
+                    continue
+                a = op_arrangements(e, k)
+                if a is None:
+                    continue
+                D |= a
+                nforms += 1
+            if not nforms or not E:
+                continue
+            n_rows += 1
+            extra = sorted(E - D - ({"1D"} if "D" in D and False else set()))
+            chk.ob(R, "%s|%s|%s|op%d" % (names[rid], en[9:], "element" if element_form else "plain", k), not extra, loc=emit.loc(i),
+                   detail="`%s` accepts the shape(s) %s for operand %d (scalar hf class %s, vector hf class %s), which no form of the mnemonic in "
+                          "db/isa_aarch64.json has (database: %s): a reserved size/Q combination is encoded" %
+                          (names[rid], ", ".join(extra), k, s_hf if s_op else "-", v_hf if v_op else "-", " ".join(sorted(D))),
+                   key="fpforms|%s|%s|op%d" % (names[rid], "element" if element_form else "plain", k))
+    chk.floor(R + ":sites", n_sites, 6)
+    chk.floor(R + ":rows", n_rows, 40)
